@@ -36,9 +36,14 @@ func runSSO(c SSOCase) (*ssoRun, error) {
 	if c.Noise {
 		spec = withNoise(spec)
 	}
-	w, err := world.Build(spec)
-	if err != nil {
-		return nil, err
+	var w *world.World
+	if c.Hist != nil {
+		w = buildWithHistory(spec, c.Hist, c.Host)
+	} else {
+		var err error
+		if w, err = world.Build(spec); err != nil {
+			return nil, err
+		}
 	}
 	if c.Noise {
 		runNoise(w, spec)
@@ -53,7 +58,13 @@ func runSSO(c SSOCase) (*ssoRun, error) {
 	r := &ssoRun{W: w, HR: hr, Rep: rep, Now: now, Signed: signed}
 	r.Dec = obs.Decode(rep)
 	host := effHost(c)
-	r.Sent = evalSent(c.Spec, func(e string) bool { _, bad := w.SPErrors[e]; return !bad }, host, hr, now)
+	r.Sent = evalSent(c.Spec, func(e string) bool {
+		if _, bad := w.SPErrors[e]; bad {
+			return false
+		}
+		_, known := w.Store.SPSpecByEntity(e) // what the storage knows now (a deregistered provider is not registered)
+		return known
+	}, host, hr, now)
 	return r, nil
 }
 
@@ -238,6 +249,12 @@ func genC08Case(t *rapid.T) SSOCase {
 	}
 	c.PersistFault = rapid.IntRange(0, 5).Draw(t, "persistfault") == 0
 	c.Noise = rapid.IntRange(0, 2).Draw(t, "noise") == 0
+	if rapid.IntRange(0, 4).Draw(t, "history") == 0 {
+		c.Hist = genHistory(t, spec, c.SP, func(e *world.SPSpec) {
+			// earlier: other consumer services
+			e.ACS = []world.ACSSpec{acs(world.BindPost, "https://earlier.example/acs/post", "0", A), acs(world.BindRedirect, "https://earlier.example/acs/redirect", "1", A)}
+		}, true)
+	}
 	return c
 }
 
